@@ -340,6 +340,26 @@ def check(repo: Repo, run: Run) -> None:
                f"raw bytes literal: `ord(c) for c in {it}` maps characters to code points, not to UTF-8 octets (br\"\\u00e9\"-style content above U+007F is wrong or a ValueError)", ev.loc(n))
     if not ords:
         run.ob("C07.L5", "celbytes|raw", True, "raw bytes literals do not take ord() of characters", ev.loc(cb))
+    # L5: in a bytes literal \xHH and \ooo spell one *octet*; the string decoder turns them into code points, and
+    # encoding that text gives two octets for every value above 0x7f.  Bytes built by encoding what celstr() (or a
+    # str-building expansion of the escapes) returned is the recognised wrong form.
+    tainted = set()
+    via = None
+    for n in ast.walk(cb):
+        if isinstance(n, ast.Assign) and len(n.targets) == 1 and isinstance(n.targets[0], ast.Name) and any(
+                isinstance(c, ast.Call) and dotted(c.func) == "celstr" for c in ast.walk(n.value)):
+            tainted.add(n.targets[0].id)
+    for n in ast.walk(cb):
+        if isinstance(n, ast.Call) and isinstance(n.func, ast.Attribute) and n.func.attr == "encode":
+            recv = strip_cast(n.func.value)
+            if (isinstance(recv, ast.Name) and recv.id in tainted) or any(isinstance(c, ast.Call) and dotted(c.func) == "celstr" for c in ast.walk(recv)):
+                via = n
+    if via is not None:
+        run.ob("C07.L5", "celbytes|cooked", False,
+               f"cooked bytes literal: `{ast.unparse(via)[:60]}` encodes the text celstr() decoded - \\xHH / \\ooo escapes have become code points, so every "
+               "octet above 0x7f turns into two bytes (b'\\xff' -> c3 bf)", ev.loc(via))
+    else:
+        run.ob("C07.L5", "celbytes|cooked", True, "cooked bytes literals are not built by encoding the string decoder's result", ev.loc(cb))
     # L7 -----------------------------------------------------------------
     n7 = 0
     for fname in ("celstr", "celbytes"):
